@@ -55,6 +55,7 @@ AlphaArgsF == AlphaOf([Query |-> {"g", "o", "on"}, T |-> {"g", "s"}])
 ArgOptsFail == [ f |-> {<<>>}, g |-> {<<ArgV("r", Lit("var", "y"))>>, <<ArgV("r", Lit("int", 2))>>} ]
 AlphaSched == AlphaOf([Query |-> {"o", "lo", "s"}, T |-> {"s", "o"}])
 AlphaSchedF == AlphaOf([Query |-> {"o", "on", "lnn", "s"}, T |-> {"s", "sn"}])
+AlphaSchedF2 == AlphaOf([Query |-> {"o", "on", "s"}, T |-> {"sn", "s"}])
 AlphaSchedM == AlphaOf([Mutation |-> {"m1", "m2", "m3", "m4", "ml"}, T |-> {"s", "sn"}])
 AlphaSchedM2 == AlphaOf([Mutation |-> {"m1", "m3", "ml"}, T |-> {"s"}])
 AlphaMultiV == AlphaOf([Query |-> {"f", "s"}])
@@ -75,6 +76,11 @@ AlphaAll == AlphaOf([Query |-> {"o", "on", "lo", "lnn", "ll", "p", "lp", "u", "l
                      T |-> {"s", "sn", "i", "d", "o", "lo", "p", "e", "f", "__typename"}, P |-> {"s", "o", "p", "__typename"},
                      A |-> {"s", "a", "an", "p"}, B |-> {"s", "b", "d"}, C |-> {"s", "c"}, U |-> {"__typename"},
                      Mutation |-> {"m1", "m2", "m3", "ml"}])
+\* merged sub-selections differing per runtime type (lists of an abstract type, type-conditioned fragments)
+AlphaMerge == AlphaOf([Query |-> {"lp"}, P |-> {"o"}, A |-> {"o"}, B |-> {"o"}, T |-> {"s", "d"}])
+AlphaMerge2 == AlphaOf([Query |-> {"lo", "o"}, T |-> {"o", "s", "d"}])
+AlphaSchedMA == AlphaOf([Mutation |-> {"mg", "mgn", "m3", "m1"}, T |-> {"s"}])
+ArgOptsMA == [ f |-> {<<>>}, g |-> {<<ArgV("r", Lit("var", "y"))>>}, mg |-> {<<ArgV("r", Lit("var", "y"))>>, <<ArgV("r", Lit("int", 2))>>}, mgn |-> {<<ArgV("r", Lit("var", "y"))>>} ]
 AllFieldNames == UNION {DOMAIN TypesExec[tn].fields : tn \in DOMAIN TypesExec}
 SomeFieldNames == {"o", "sn", "m2", "m3", "lnn"}
 AlphaMut == AlphaOf([Mutation |-> {"m1", "m3", "ml"}, T |-> {"s", "o"}])
